@@ -385,7 +385,7 @@ def make_scenarios(p, rng):
 
 
 ATTR_SCEN = ["plan", "s1", "s2", "s3"]
-ATTR_TASKS = ["c", "c.d", "c.d.x", "c.y"]
+ATTR_TASKS = ["c", "c.d", "c.d.x", "c.x"]      # the two leaves share their local id (legal: different parents)
 
 
 def attr_text(decls, reverse, attr="effort"):
@@ -404,7 +404,7 @@ def attr_text(decls, reverse, attr="effort"):
     L += ['  task d "d" {'] + ["    " + x for x in lines[2]]
     base = ["allocate r"] + (["effort 3h"] if attr != "effort" else [])
     L += ['    task x "x" {'] + ["      " + x for x in base + lines[3]] + ["    }", "  }"]
-    L += ['  task y "y" {'] + ["    " + x for x in base + lines[4]] + ["  }", "}"]
+    L += ['  task x "x again" {'] + ["    " + x for x in base + lines[4]] + ["  }", "}"]
     return "\n".join(L) + "\n"
 
 
